@@ -651,6 +651,16 @@ class ExprMixin:
                 continue
             base = vals[0]
             if isinstance(e.slice, ast.Slice):
+                # a constant slice of a result row is the tuple of those columns
+                if base.k == 'row' and e.slice.step is None and all(
+                        b is None or (isinstance(b, ast.Constant) and isinstance(b.value, int))
+                        for b in (e.slice.lower, e.slice.upper)):
+                    stmt = s.trace[base.a[0]].d.get('stmt') if base.a[0] < len(s.trace) else None
+                    if stmt is not None and stmt.kind == 'select' and stmt.colnames:
+                        rng = range(*slice(e.slice.lower.value if e.slice.lower else None,
+                                           e.slice.upper.value if e.slice.upper else None).indices(len(stmt.colnames)))
+                        out.append((tup([self.col_of(base.a[0], i, s, e) for i in rng]), s))
+                        continue
                 out.append((V('slice', base, src_of(e.slice)), s))
                 continue
             idx = vals[1]
